@@ -686,6 +686,7 @@ hwloc__xml_import_object(hwloc_topology_t topology,
 {
   int ignored = 0;
   int childrengotignored = 0;
+  int gottype = 0;
   char *tag;
   struct hwloc__xml_import_state_s childstate;
 
@@ -698,6 +699,14 @@ hwloc__xml_import_object(hwloc_topology_t topology,
     if (state->global->next_attr(state, &attrname, &attrvalue) < 0)
       break;
     if (!strcmp(attrname, "type")) {
+      if (gottype) {
+	/* nolibxml does not refuse duplicate attributes, attributes of the first type are already in the attr union */
+	if (hwloc__xml_verbose())
+	  fprintf(stderr, "%s: object with multiple type attributes\n",
+		  state->global->msgprefix);
+	goto error_with_object;
+      }
+      gottype = 1;
       if (hwloc_type_sscanf(attrvalue, &obj->type, NULL, 0) < 0) {
 	if (!strcasecmp(attrvalue, "Tile")) {
 	  /* deal with possible future type */
